@@ -47,6 +47,7 @@ type c17Case struct {
 	Tree *c17Node `json:"tree,omitempty"`
 	Mode int      `json:"mode,omitempty"`
 	Max  int      `json:"max,omitempty"` // maximum number of steps of a path
+	Embed *c17Embed `json:"embed,omitempty"`
 }
 
 type c17 struct{}
@@ -135,7 +136,7 @@ func (p *c17) plan(ctx core.Ctx) c17Plan {
 
 func (p *c17) Plan(ctx core.Ctx) int {
 	pl := p.plan(ctx)
-	return pl.seqEx + pl.pathEx0 + pl.pathExM + pl.seqRand + pl.pathRand + pl.reuse
+	return c17NEmbed() + pl.seqEx + pl.pathEx0 + pl.pathExM + pl.seqRand + pl.pathRand + pl.reuse
 }
 
 func (p *c17) Decode(raw json.RawMessage) (any, error) { return core.JSONDecode[c17Case](raw) }
@@ -144,6 +145,10 @@ var c17ChainCache = map[string][][]int{}
 
 func (p *c17) Gen(ctx core.Ctx, i int) any {
 	pl := p.plan(ctx)
+	if i < c17NEmbed() {
+		return c17GenEmbed(i)
+	}
+	i -= c17NEmbed()
 	if i < pl.seqEx {
 		return p.genSeqEx(ctx, i)
 	}
@@ -1505,6 +1510,10 @@ func (p *c17) Exec(ctx core.Ctx, cc any) core.Obs {
 	c17Once.Do(func() { debug.SetGCPercent(800) })
 	c := cc.(c17Case)
 	switch c.Part {
+	case "embed":
+		var o core.Obs
+		c17ExecEmbed(c, &o)
+		return o
 	case "path":
 		return p.execPath(ctx, c)
 	default:
